@@ -165,6 +165,52 @@ func GenSpec(t *rapid.T) *Spec {
 			s.NodeRtVer = append(s.NodeRtVer, vs)
 		}
 	}
+	if s.WithRuntime && rapid.IntRange(0, 2).Draw(t, "rtElectable") > 0 {
+		// two thirds of the runtimes can actually get a committee: sizes and constraints fitted to the compute nodes that
+		// exist (a runtime without a committee is suspended, and everything addressed to it is refused early)
+		if s.NodeRoles[0][0]&2 == 0 {
+			s.NodeRoles[0][0] |= 2
+		}
+		if s.RtUpgradeAt > 0 {
+			s.NodeRtVer[0][0] = 3
+		}
+		// candidate pool (after the per-entity cap) before and after the upgrade: the smaller one counts
+		poolFor := func(bit int) int {
+			pool := 0
+			for i, rs := range s.NodeRoles {
+				c := 0
+				for j, r := range rs {
+					if r&2 != 0 && (s.RtUpgradeAt == 0 || s.NodeRtVer[i][j]&bit != 0) {
+						c++
+					}
+				}
+				if s.RtMaxNodes > 0 && c > int(s.RtMaxNodes) {
+					c = int(s.RtMaxNodes)
+				}
+				pool += c
+			}
+			return pool
+		}
+		pool := poolFor(1)
+		if p2 := poolFor(2); s.RtUpgradeAt > 0 && p2 < pool {
+			pool = p2
+		}
+		s.RtValidatorSet = false
+		if int(s.RtGroup) > pool {
+			s.RtGroup = uint16(pool)
+		}
+		if int(s.RtBackup) > pool {
+			s.RtBackup = uint16(pool)
+		}
+		for _, g := range []uint16{s.RtGroup, s.RtBackup} {
+			if int(g+s.RtMinPoolExtra) > pool {
+				s.RtMinPoolExtra = 0
+			}
+		}
+		if s.RtStragglers >= s.RtGroup {
+			s.RtStragglers = 0
+		}
+	}
 	s.WithVault = rapid.IntRange(0, 2).Draw(t, "vault") == 0
 	if s.WithVault {
 		for i, n := 0, rapid.IntRange(0, 2).Draw(t, "genesisVaults"); i < n; i++ {
